@@ -14,7 +14,7 @@ from .num import as_map, cq, fq, synth
 from .tlaval import parse_behaviour_file
 
 OWNER = {"derive": "C05", "filter": "C04", "apply": "C03", "rk": "C02", "resample": "C15", "leray": "C10", "incomp": "C10", "poisson": "C05", "oddball": "C04", "addmode": None,
-         "advect": "C01", "advectn": "C14", "interp": "C15", "spectrum": "C17", "metric": "C16", "coefs": "C04"}
+         "advect": "C01", "advectn": "C14", "forced": "C12", "interp": "C15", "spectrum": "C17", "metric": "C16", "coefs": "C04"}
 OBSERVATIONS = {"interp", "spectrum", "metric", "coefs"}
 INVS = ["RealOK", "BandOK", "FilterOK", "ProjectOK", "DeriveOK", "OddballOK", "InterpOK", "SpectrumOK", "MetricOK"]
 PROPS = ["PoissonOK", "AdvectOK", "EquivOK"]
@@ -28,7 +28,8 @@ def simulate(run, tier, seed, label, num=None):
     os.makedirs(work, exist_ok=True)
     cfg = os.path.join(work, "Session.cfg")
     quick = tier == "quick"
-    consts = {"Kinds": '{"s1", "s2", "v2"}', "Sizes": "{1008, 1009, 2006, 2005}" if quick else "{1008, 1009, 1012, 1015, 2006, 2005, 2008, 2009}",
+    consts = {"Kinds": '{"s1", "s2", "v2"}' if quick else '{"s1", "s2", "v2", "s3", "v3"}',
+              "Sizes": "{1008, 1009, 2006, 2005}" if quick else "{1008, 1009, 1012, 1015, 2006, 2005, 2008, 2009, 3006, 3005}",
               "MaxNl": 2, "MaxRK": 2, "Seeds": 6, "MaxLen": 6}
     tlc.write_cfg(cfg, spec="Spec", constants=consts, invariants=INVS, properties=PROPS)
     workers = 16
@@ -89,6 +90,12 @@ def _fun0(ex, D, N, term):
         return nf.PolynomialNonlinearFun(D, N, dealiasing_fraction=2 / 3, coefficients=(0.0, 0.5, -1.0))
     if term == "vort2d":
         return nf.VorticityConvection2d(D, N, convection_scale=1.0, derivative_operator=dop, dealiasing_fraction=2 / 3)
+    if term == "vort2d_kolm":
+        return nf.VorticityConvection2dKolmogorov(D, N, convection_scale=1.0, injection_mode=1, injection_scale=1.0, derivative_operator=dop, dealiasing_fraction=2 / 3)
+    if term == "general":
+        return nf.GeneralNonlinearFun(D, N, derivative_operator=dop, dealiasing_fraction=2 / 3, scale_list=(1 / 2, -3 / 2, 2 / 3), zero_mode_fix=True)
+    if term == "rot3d":
+        return nf.ProjectedConvection3d(D, N, derivative_operator=dop, dealiasing_fraction=2 / 3)
     raise KeyError(term)
 
 
@@ -117,8 +124,9 @@ def apply_action(ex, jnp, D, N, u, last):
         k = ("rkstepper", D, N, last["term"], last["p"], u.shape[0])
         if k not in _CACHE:
             _CACHE[k] = _stepper_with_zero_linear_part(ex, D, N, last["term"], last["p"], u.shape[0])
-        return np.asarray(_CACHE[k](ju)), N
-    if op == "rk":
+        if _CACHE[k] is not None:
+            return np.asarray(_CACHE[k](ju)), N
+    if op in ("rk",):
         f = _fun(ex, D, N, last["term"])
         cls = {1: ex.etdrk.ETDRK1, 2: ex.etdrk.ETDRK2, 3: ex.etdrk.ETDRK3, 4: ex.etdrk.ETDRK4}[last["p"]]
         uh = ex.fft(ju)
@@ -137,6 +145,15 @@ def apply_action(ex, jnp, D, N, u, last):
         return np.asarray(ex.spectral.make_incompressible(ju)), N
     if op == "poisson":
         return np.asarray(ex.poisson.Poisson(D, L, N, order=last["o"])(ju)), N
+    if op == "forced":
+        k = ("adv", D, N, tuple(last["v"]))
+        if k not in _CACHE:
+            _CACHE[k] = ex.stepper.Advection(D, L, N, DT_ADV, velocity=jnp.asarray(np.asarray(last["v"], dtype=float) * (np.pi / 2) / DT_ADV))
+        jj = np.stack(np.meshgrid(*([np.arange(N)] * D), indexing="ij"))
+        th = 2 * np.pi * sum(last["p"][d] * jj[d] for d in range(D)) / N
+        f = jnp.asarray((np.cos(th) if last["trig"] == "cos" else np.sin(th))[None])
+        fs = ex.ForcedStepper(_CACHE[k])
+        return np.concatenate([np.asarray(fs(ju[c:c + 1], f)) for c in range(u.shape[0])], axis=0), N
     if op in ("advect", "advectn"):
         vel = np.asarray(last["v"], dtype=float) * (np.pi / 2) / DT_ADV          # c dt w = v pi / 2 with w = 2 pi / L = 1
         k = ("adv", D, N, tuple(last["v"]))
@@ -175,7 +192,11 @@ def _stepper_with_zero_linear_part(ex, D, N, term, p, C):
         return st.generic.GeneralPolynomialStepper(D, L, N, DT, linear_coefficients=(0.0,), polynomial_coefficients=(0.0, 0.5, -1.0), order=p)
     if term == "vort2d":
         return st.NavierStokesVorticity(D, L, N, DT, diffusivity=0.0, vorticity_convection_scale=1.0, drag=0.0, order=p)
-    raise KeyError(term)
+    if term == "vort2d_kolm":
+        return st.KolmogorovFlowVorticity(D, L, N, DT, diffusivity=0.0, convection_scale=1.0, drag=0.0, injection_mode=1, injection_scale=1.0, order=p)
+    if term == "rot3d":
+        return st.NavierStokesVelocity(D, L, N, DT, diffusivity=0.0, drag=0.0, order=p)
+    return None
 
 
 def observe(ex, jnp, D, N, u, last):
